@@ -9,6 +9,10 @@ SCEN = [
     ('grow', 'hmap', 'id', ['ins:0,ins:1,ins:2,ins:3,ins:4', 'ins:5,ins:6,ins:7,ins:8', 'find:0,find:4,find:8,erase:1,find:1']),
     ('same', 'hmap', 'id', ['ins:7,erase:7,ins:7', 'ins:7,erase:7', 'erase:7,ins:7,count:7']),
     ('split', 'hmap', 'id', ['ins:1,ins:3,ins:5,ins:9', 'ins:2,ins:17,findr:1', 'erase:3,findw:9,ins:33', 'find:17,erase:1,count:5']),
+    # erase through a held accessor while another thread grows the table and touches the key's new bucket (mask race in exclude())
+    ('eacc', 'hmap', 'id', ['ins:3,erasea:3,ins:3,erasear:3', 'ins:4,ins:5,ins:6,count:3,ins:8', 'ins:7,find:3,ins:9,count:3']),
+    ('eacc2', 'hmap', 'id', ['ins:2,ins:6,erasea:6,erasear:2', 'ins:1,ins:3,ins:4,ins:5,count:6,count:2', 'ins:8,ins:9,ins:10,find:6,find:2']),
+    ('eacc3', 'hmap', 'low', ['ins:2,erasea:2', 'erasear:2,ins:2', 'ins:4,ins:6,ins:8,count:2']),
     ('locks', 'hmap', 'low', ['insw:4,findw:4', 'findr:4,findr:4', 'findw:4,erase:4', 'findr:4,ins:4']),
 ]
 
